@@ -9,6 +9,7 @@
   what the harness counts.  Core Lean only.
 -/
 import Gts.Spec.LocCanon
+import Gts.Spec.Marks
 namespace Gts
 namespace Loc
 
@@ -101,6 +102,31 @@ def normalizeK3List : List Loc → Int → Bool
   | [], _ => false
   | l :: ls, n => normalizeK3 l n || normalizeK3List ls n
 end
+
+/-! ### coordinate bounds of the closure theorems (leaf-wise, over the oracle's `leaves`) -/
+
+/-- every coordinate `canonP` looks at is at most `M` -/
+def leafLe (M : Int) : Loc → Bool
+  | between p => decide (p ≤ M)
+  | point p => decide (p ≤ M)
+  | ranged s e _ _ => decide (s ≤ M) && decide (e ≤ M)
+  | ambiguous s e => decide (s ≤ M) && decide (e ≤ M)
+  | _ => true
+
+/-- no coordinate of the location exceeds `M` -/
+def coordsLe (M : Int) (l : Loc) : Bool := (leaves l).all (leafLe M)
+
+/-- the mirror image in a sequence of `L` residues has non-negative coordinates: spans end at or
+before `L`, points lie before `L` — and so must between-sites, because `Between.Reverse` is
+`L - 1 - p` (known finding K1; the mirror image of the site `p` is `L - p`) -/
+def leafRevIn (L : Int) : Loc → Bool
+  | between p => decide (p < L)
+  | point p => decide (p < L)
+  | ranged s e _ _ => decide (s ≤ L) && decide (e ≤ L)
+  | ambiguous s e => decide (s ≤ L) && decide (e ≤ L)
+  | _ => true
+
+def revIn (L : Int) (l : Loc) : Bool := (leaves l).all (leafRevIn L)
 
 end Loc
 end Gts
